@@ -330,10 +330,16 @@ pub fn run(args: &[String]) {
         for env in lock_envs(&case, &mut rng) {
             id += 1;
             let mut s = String::new();
-            emit_case(&w, &case, &env, id, sane, &mut rng, &mut s);
+            if catch_unwind(AssertUnwindSafe(|| emit_case(&w, &case, &env, id, sane, &mut rng, &mut s))).is_err() {
+                // an uncaught library panic while building the case: reported, never silently dropped
+                println!("END");
+                println!("PANIC emit_case case={} seed={} c={} desc={}", id, cseed, c, case.desc);
+                continue;
+            }
             print!("{}", s);
         }
     }
+    println!("DONE sat");
 }
 
 fn emit_case(w: &World, c: &Case, env: &TxEnv, id: u64, sane: bool, rng: &mut Rng, out: &mut String) {
